@@ -265,6 +265,20 @@ func main() {
 	stCode.Labels, stTail.Labels = codeLabels, tailLabels
 	ctx.RunStream(stCode, codeLines, codeImpl)
 	ctx.RunStream(stTail, tailLines, tailImpl)
+	// the static hypothesis of the simulation theorem (Props/C04Sim.lean) on every real program:
+	// call/callrec/pushpc operands are function entries, the code ends in ret, no jumpifnot targets
+	// its successor — decided by the Lean definition the theorem uses (wfCheckView), on the code
+	// the pass receives (peephole off) and on the code it produces
+	stWf := ctx.NewStream("wf", "Gojq.OptVM.wfCheckView (Model/OptVM.lean), proved equal to the hypothesis wfCheck of optimizeCodeOps_preserves_outputs",
+		"every instruction list sent to the codeops stream (before the pass) and every list the real pass produced: the implementation's answer is the constant `wf`; distinct = 1 when all are well-formed")
+	var wfLines, wfImpl, wfLabels []string
+	for i := range codeLines {
+		wfLines = append(wfLines, codeLines[i], codeImpl[i])
+		wfImpl = append(wfImpl, "wf", "wf")
+		wfLabels = append(wfLabels, codeLabels[i]+"  (before the pass)", codeLabels[i]+"  (after the pass)")
+	}
+	stWf.Labels = wfLabels
+	ctx.RunStream(stWf, wfLines, wfImpl)
 	// a pass no longer does what its model does: look for an OBSERVABLE difference around the
 	// programs on which they differ (a misplaced stack slot only shows in some contexts)
 	var suspects []string
